@@ -1755,7 +1755,7 @@ def main(tier: str, seed: int, replay: str | None = None) -> int:
                 lang.build()
                 cases.append(Case(name, lang, wf))
     nfixed = len(cases)
-    nlang, per = (45, 4) if tier == "quick" else (420, 5)
+    nlang, per = (45, 4) if tier == "quick" else (300, 5)
     for _ in range(nlang):
         lang = gen_lang(rng)
         lang.build()
